@@ -669,6 +669,126 @@ fn run_message_tail(ctx: &mut Ctx) {
     }
 }
 
+/// signed messages inside the container, and every entry point that "reads the stream to its end" on
+/// behalf of the caller: `read_to_end`, `as_data_vec`, `as_data_string`, `verify_read` — with plaintext
+/// lengths around a multiple of the chunk size (the last data chunk is then released before the final
+/// tag is looked at), and modifications that only show behind the last plaintext octet
+fn run_signed_inner(ctx: &mut Ctx) {
+    use pgp::packet::PacketTrait;
+    let mut rng = ChaCha8Rng::seed_from_u64(ctx.seed ^ 0xC035);
+    let skey = crate::keys::eddsa_legacy_ecdh(&mut rng);
+    let pkey = skey.to_public_key();
+    let key = gen::random_bytes(&mut rng, 16);
+    let site = "Message::{read_to_end, as_data_vec, as_data_string, verify_read} on a signed message inside SEIPDv2";
+    let mut aligned = 0usize;
+    for n in 0..ctx.pick(150usize, 400) {
+        let data: Vec<u8> = (0..n).map(|i| b'a' + (i % 26) as u8).collect();
+        let built = guarded(|| {
+            let mut b = pgp::composed::MessageBuilder::from_bytes("", data.clone()).seipd_v2(&mut rng, SymmetricKeyAlgorithm::AES128, AeadAlgorithm::Ocb, ChunkSize::C64B);
+            b.set_session_key(key.clone().into()).ok()?;
+            let s2k = pgp::types::StringToKey::new_iterated(&mut rng, pgp::crypto::hash::HashAlgorithm::Sha256, 0);
+            b.encrypt_with_password(&mut rng, s2k, &"pw".into()).ok()?;
+            b.sign(&skey.primary_key, pgp::types::Password::empty(), pgp::crypto::hash::HashAlgorithm::Sha256);
+            b.to_vec(&mut rng).ok()
+        });
+        let Ok(Some(msg)) = built else {
+            ctx.stat("signed_inner:cannot_build");
+            continue;
+        };
+        // locate the SEIPD packet (last packet) and its body
+        let mut off = 0usize;
+        let mut seipd_at = None;
+        while off < msg.len() {
+            let (_, Some((body, _))) = crate::props::c17::real_deframe(&msg[off..]) else { break };
+            let total = {
+                // header length = packet length - body length; the packet ends where the next begins
+                let hdr = if msg[off + 1] < 192 { 2 } else if msg[off + 1] < 224 { 3 } else { 6 };
+                hdr + body.len()
+            };
+            if msg[off] & 0x3f == 18 {
+                seipd_at = Some((off, body.to_vec()));
+            }
+            off += total;
+        }
+        let Some((at, body)) = seipd_at else {
+            ctx.stat("signed_inner:no_seipd_found");
+            continue;
+        };
+        if body.len() < 52 {
+            continue;
+        }
+        let is_aligned = (body.len() - 52) % 80 == 0;
+        // all aligned lengths, and a few others
+        if !is_aligned && n % 37 != 0 {
+            continue;
+        }
+        if is_aligned {
+            aligned += 1;
+        }
+        let prefix = msg[..at].to_vec();
+        let reframe = |b: &[u8]| -> Option<Vec<u8>> {
+            let f = crate::frame::frame_fixed(true, 18, if b.len() < 192 { 1 } else if b.len() < 8384 { 2 } else { 5 }, b)?;
+            Some([&prefix[..], &f[..]].concat())
+        };
+        let sk = || PlainSessionKey::V6 { key: key.clone().into() };
+        // entry points: (name, ended cleanly?)
+        let run_all = |m: &[u8]| -> Vec<(&'static str, bool)> {
+            let open = || -> Option<Message<'_>> {
+                let (mm, _) = Message::from_reader(m).ok()?;
+                mm.decrypt_with_session_key(sk()).ok()
+            };
+            let mut out = Vec::new();
+            out.push(("read_to_end", guarded(|| open().map(|mut d| { let mut v = Vec::new(); d.read_to_end(&mut v).is_ok() }).unwrap_or(false)).unwrap_or(false)));
+            out.push(("as_data_vec", guarded(|| open().map(|mut d| d.as_data_vec().is_ok()).unwrap_or(false)).unwrap_or(false)));
+            out.push(("as_data_string", guarded(|| open().map(|mut d| d.as_data_string().is_ok()).unwrap_or(false)).unwrap_or(false)));
+            out.push(("verify_read", guarded(|| open().map(|mut d| d.verify_read(&pkey).is_ok()).unwrap_or(false)).unwrap_or(false)));
+            out
+        };
+        let honest = run_all(&msg);
+        for (name, ok) in &honest {
+            ctx.oracle("unmodified_reads", site, &format!("n={n} aligned={is_aligned} entry={name} msg={}", hx(&msg)), *ok, "the unmodified message does not read / verify");
+        }
+        let mut grown: Vec<(String, Vec<u8>)> = Vec::new();
+        for extra in [1usize, 16, 63, 64, 80, 96, 160] {
+            let mut b = body.clone();
+            b.extend(gen::random_bytes(&mut rng, extra));
+            grown.push((format!("append{extra}"), b));
+        }
+        let ct = &body[36..];
+        let full = (ct.len() - 16) / 80;
+        if full >= 1 {
+            let last = &ct[(full - 1) * 80..full * 80];
+            let mut b = body[..36 + full * 80].to_vec();
+            b.extend_from_slice(last);
+            b.extend_from_slice(&ct[full * 80..]);
+            grown.push(("dup_last_full_chunk".to_string(), b));
+        }
+        {
+            let mut b = body.clone();
+            b.extend_from_slice(&body[body.len() - 16..]);
+            grown.push(("final_tag_twice".to_string(), b));
+            let mut b = body.clone();
+            for _ in 0..5 {
+                b.extend_from_slice(&body[body.len() - 16..]);
+            }
+            grown.push(("final_tag_six_times".to_string(), b));
+            let mut b = body.clone();
+            let l = b.len();
+            b[l - 1] ^= 1;
+            grown.push(("final_tag_flipped".to_string(), b));
+            grown.push(("final_tag_cut".to_string(), body[..body.len() - 16].to_vec()));
+        }
+        for (what, b) in &grown {
+            let Some(m) = reframe(b) else { continue };
+            for (name, ok) in run_all(&m) {
+                ctx.oracle("modified_never_clean_eof", site, &format!("n={n} aligned={is_aligned} {what} entry={name} msg={}", hx(&m)), !ok, "read to the end / verified although the container was modified");
+                ctx.stat("signed_inner:modified");
+            }
+        }
+    }
+    ctx.stat_n("signed_inner:chunk_aligned_plaintexts", aligned as u64);
+}
+
 fn run_message(ctx: &mut Ctx) {
     let mut rng = ChaCha8Rng::seed_from_u64(ctx.seed ^ 0xC032);
     // header octets of SEIPDv2 containers written with other chunk sizes (incl. the largest, 4 MiB):
@@ -1114,6 +1234,7 @@ fn run_cipher_sweep(ctx: &mut Ctx) {
 pub fn run(ctx: &mut Ctx) {
     run_nested(ctx);
     run_cipher_sweep(ctx);
+    run_signed_inner(ctx);
     // thorough: the whole sweep is repeated with fresh keys, salts, plaintexts and mutation choices
     let rounds = ctx.pick(1u64, 24u64);
     let base = ctx.seed;
